@@ -1482,4 +1482,27 @@ theorem resolveShares_plain_id (m : LMap) (x : Id) (hx : x ∈ m.ids) (hpx : Pla
   unfold resolveShares
   simp [resolveNumber_plain m 10 x hpx, revisionForIdent_id m 10 x hx, bind, Except.bind, pure, Except.pure]
 
+/-! ### plain `head` -/
+
+/-- **`head`**: nothing when the history has no head, the head when it has exactly one, and
+`MultipleHeads` when it has two or more — never one of several picked silently. -/
+theorem symbolic_head {h : Hist} {o : LoadOpts} {m : LMap} (hl : load h o = .ok m)
+    (hsub : ∀ x ∈ m.heads, x ∈ m.ids) :
+    (m.heads = [] → getRevisions m "head" = .ok []) ∧
+    (∀ x, m.heads = [x] → getRevisions m "head" = .ok [some x]) ∧
+    (∀ x y r, m.heads = x :: y :: r → getRevisions m "head" = .error .multipleHeads) := by
+  have hsplit := splitFirstAt_noat "head" (by decide)
+  refine ⟨?_, ?_, ?_⟩
+  · intro he
+    unfold getRevisions resolveFuel resolveRevisionNumber currentHead
+    simp [hsplit, he, bind, Except.bind, pure, Except.pure]
+  · intro x he
+    have hxi : x ∈ m.ids := hsub x (by rw [he]; exact List.mem_cons_self)
+    have hneg : negInt? x = none := load_ids_legal hl x hxi
+    unfold getRevisions resolveFuel resolveRevisionNumber currentHead
+    simp [hsplit, he, hneg, revisionForIdent_id m 11 x hxi, bind, Except.bind, pure, Except.pure]
+  · intro x y r he
+    unfold getRevisions resolveFuel resolveRevisionNumber currentHead
+    simp [hsplit, he, bind, Except.bind, pure, Except.pure, throw, throwThe, MonadExceptOf.throw]
+
 end C16
